@@ -7,11 +7,27 @@ from ..report import Report
 from . import comptrace, cwire, pywire, ufull
 
 
+DECOY = {"dir": None}
+
+
 def encode_py(pr, t, values, d):
-    """Compiles the version to Python and encodes the values (assigned through resolved type t)."""
+    """Compiles the version to Python and encodes the values (assigned through resolved type t).  The compiler runs
+    with its working directory in a place that holds unrelated files under the imported files' names: an import is
+    relative to the importing file, never to where the compiler happens to be started."""
     main_path = os.path.join(d, pr["main"] + ".bitproto")
     paths = {n: os.path.join(d, n + ".bitproto") for n in pr["files"]}
-    drive.compile_program(paths, pr["order"], "py", d)
+    cwd = os.getcwd()
+    if DECOY["dir"]:
+        for n in pr["files"]:
+            dp = os.path.join(DECOY["dir"], n + ".bitproto")
+            if not os.path.exists(dp):
+                with open(dp, "w") as f:
+                    f.write("proto %s\n\nconst DECOY = 1\n" % n)
+        os.chdir(DECOY["dir"])
+    try:
+        drive.compile_program(paths, pr["order"], "py", d)
+    finally:
+        os.chdir(cwd)
     mod = drive.load_py(d, pr["main"] + "_bp")
     try:
         cls = getattr(mod, pr["top"])
@@ -55,6 +71,7 @@ def main(tier, replay=None):
     nchains, nsteps, nvals = (80, 4, 3) if tier == "quick" else (1500, 8, 5)
     chains = []
     with common.Scratch("c12") as scratch:
+        DECOY["dir"] = scratch.sub()
         # ---- build chains, render every version, ask the specification for the resolved types ----
         ctraces, cmeta = [], []
         # directed bases next to the random ones: one leaf type held as scalar, aliased scalar, array element and
